@@ -29,9 +29,8 @@ Print Assumptions C01_sound_partial.
 (* The full theorem: ALL values, types used as values (the instances of Type[T]) included.  The Type[T] case is
    transitivity of assignability (C03_trans, Proofs/LatticeTrans.v): `inst (TType t) (VType u) = asg t u`.
    Hypotheses beyond those of the partial theorem:
-     wf_valt v          hash keys pairwise different; every type that occurs in v as a value is well-formed, Unit-free
-                        and has no Array/Hash/Tuple size with a negative maximum (open C03 finding
-                        trans-negative-collection-size: without it transitivity, hence this case, is false);
+     wf_valt v          hash keys pairwise different; every type that occurs in v as a value is well-formed and
+                        Unit-free (no condition on sizes: C03 finding trans-negative-collection-size is fixed);
      rule_free_val t v  the by-specification Struct<-Hash rule cannot fire when an instance of Type[T] is tested
                         against t: t contains no Struct or no type inside v contains a Hash (the exclusion the
                         property names, one level down; C01_rule_excluded_for_type_values shows it is needed). *)
